@@ -2,6 +2,7 @@ package vuego
 
 import (
 	"fmt"
+	"reflect"
 	"strconv"
 	"strings"
 
@@ -237,7 +238,7 @@ func (v *Vue) parseObjectPairs(ctx VueContext, content string) []string {
 		}
 
 		// nil (including undefined variables) contributes an empty value: falsy for class, omitted for style
-		if val == nil {
+		if rv := reflect.ValueOf(val); val == nil || (rv.Kind() == reflect.Ptr && rv.IsNil()) {
 			pairs = append(pairs, key+":")
 			continue
 		}
